@@ -1,13 +1,1184 @@
-//! placeholder (being written)
+//! C07 oracle: for every Packet / Frame / Header / Option type exported by smoltcp::wire (harness
+//! feature set; RPL and IPsec are behind non-default features), arbitrary / mutated / truncated
+//! byte strings -> `new_checked`; when it succeeds every read accessor that applies to the packet's
+//! own message type, `Repr::parse` (also without a preceding new_checked where parse re-checks) and
+//! the pretty printer, each under catch_unwind; a watchdog thread reports non-termination.
+//!
+//! Failure classes (`<type>-<kind>`, stable): accessor-panic, parse-panic, prettyprint-panic,
+//! new-checked-panic, nonterminating.
+//!
+//! Oracle case: `case <id> fmt=oracle kind=c07 type=<type>` with ops `bytes <hex>`.
+#![allow(dead_code)]
+use super::super::common::*;
+use smoltcp::phy::{ChecksumCapabilities, Medium};
+use smoltcp::wire::*;
+use std::collections::BTreeMap;
 use std::io::Write;
+use std::sync::atomic::{AtomicU64, Ordering};
+use std::sync::{Arc, Mutex};
 use svh::*;
-pub fn run(_seed: u64, _n: usize, _tier: &str, out: &mut dyn Write) {
-    writeln!(out, "STATS {{\"cases\":0}}").unwrap();
+
+/// probe context: records which call panicked
+pub struct P {
+    pub panics: Vec<(&'static str, String)>, // (kind, what)
+    pub calls: u64,
+    pub checked_ok: bool,
+    pub parse_ok: bool,
 }
-pub fn replay(_c: &Case, _out: &mut dyn Write) {}
-pub fn gen_cases(_seed: u64, _n: usize, _tier: &str, _out: &mut dyn Write) {}
+impl P {
+    fn new() -> P {
+        P { panics: vec![], calls: 0, checked_ok: false, parse_ok: false }
+    }
+    fn acc<T>(&mut self, what: &str, f: impl FnOnce() -> T) -> Option<T> {
+        self.calls += 1;
+        let r = guard(f);
+        if r.is_none() {
+            self.panics.push(("accessor-panic", what.to_string()));
+        }
+        r
+    }
+    fn parse<T>(&mut self, what: &str, f: impl FnOnce() -> std::result::Result<T, Error>) {
+        self.calls += 1;
+        match guard(f) {
+            None => self.panics.push(("parse-panic", what.to_string())),
+            Some(Ok(_)) => self.parse_ok = true,
+            Some(Err(_)) => {}
+        }
+    }
+    fn chk<T>(&mut self, f: impl FnOnce() -> std::result::Result<T, Error>) -> bool {
+        self.calls += 1;
+        match guard(f) {
+            None => {
+                self.panics.push(("new-checked-panic", "new_checked".into()));
+                false
+            }
+            Some(r) => {
+                self.checked_ok = r.is_ok();
+                r.is_ok()
+            }
+        }
+    }
+    fn pretty<T: smoltcp::wire::pretty_print::PrettyPrint>(&mut self, b: &[u8]) {
+        self.calls += 1;
+        let v = b.to_vec();
+        if guard(|| format!("{}", PrettyPrinter::<T>::new("", &v))).is_none() {
+            self.panics.push(("prettyprint-panic", "PrettyPrinter".into()));
+        }
+    }
+    fn display<T: std::fmt::Display>(&mut self, what: &str, f: impl FnOnce() -> T) {
+        self.calls += 1;
+        if guard(|| format!("{}", f())).is_none() {
+            self.panics.push(("prettyprint-panic", format!("Display of {}", what)));
+        }
+    }
+}
+
+fn v4a() -> IpAddress {
+    IpAddress::v4(10, 0, 0, 1)
+}
+fn v4b() -> IpAddress {
+    IpAddress::v4(10, 0, 0, 2)
+}
+fn v6a() -> Ipv6Address {
+    Ipv6Address::new(0xfe80, 0, 0, 0, 0, 0, 0, 1)
+}
+fn v6b() -> Ipv6Address {
+    Ipv6Address::new(0xfe80, 0, 0, 0, 0, 0, 0, 2)
+}
+fn both_caps() -> [ChecksumCapabilities; 2] {
+    [ChecksumCapabilities::default(), ChecksumCapabilities::ignored()]
+}
+
+// ---------------------------------------------------------------- probes
+fn p_eth(b: &[u8], p: &mut P) {
+    if p.chk(|| EthernetFrame::new_checked(b)) {
+        let f = EthernetFrame::new_unchecked(b);
+        p.acc("dst_addr", || f.dst_addr());
+        p.acc("src_addr", || f.src_addr());
+        p.acc("ethertype", || f.ethertype());
+        p.acc("payload", || f.payload().len());
+        p.display("frame", || EthernetFrame::new_unchecked(b));
+    }
+    p.parse("EthernetRepr::parse", || EthernetRepr::parse(&EthernetFrame::new_unchecked(b)));
+    p.pretty::<EthernetFrame<&[u8]>>(b);
+}
+fn p_arp(b: &[u8], p: &mut P) {
+    if p.chk(|| ArpPacket::new_checked(b)) {
+        let f = ArpPacket::new_unchecked(b);
+        p.acc("hardware_type", || f.hardware_type());
+        p.acc("protocol_type", || f.protocol_type());
+        p.acc("hardware_len", || f.hardware_len());
+        p.acc("protocol_len", || f.protocol_len());
+        p.acc("operation", || f.operation());
+        p.acc("source_hardware_addr", || f.source_hardware_addr().len());
+        p.acc("source_protocol_addr", || f.source_protocol_addr().len());
+        p.acc("target_hardware_addr", || f.target_hardware_addr().len());
+        p.acc("target_protocol_addr", || f.target_protocol_addr().len());
+        p.display("packet", || ArpPacket::new_unchecked(b));
+    }
+    p.parse("ArpRepr::parse", || ArpRepr::parse(&ArpPacket::new_unchecked(b)));
+    p.pretty::<ArpPacket<&[u8]>>(b);
+}
+fn p_ipv4(b: &[u8], p: &mut P) {
+    if p.chk(|| Ipv4Packet::new_checked(b)) {
+        let f = Ipv4Packet::new_unchecked(b);
+        p.acc("version", || f.version());
+        p.acc("header_len", || f.header_len());
+        p.acc("dscp", || f.dscp());
+        p.acc("ecn", || f.ecn());
+        p.acc("total_len", || f.total_len());
+        p.acc("ident", || f.ident());
+        p.acc("dont_frag", || f.dont_frag());
+        p.acc("more_frags", || f.more_frags());
+        p.acc("frag_offset", || f.frag_offset());
+        p.acc("hop_limit", || f.hop_limit());
+        p.acc("next_header", || f.next_header());
+        p.acc("checksum", || f.checksum());
+        p.acc("src_addr", || f.src_addr());
+        p.acc("dst_addr", || f.dst_addr());
+        p.acc("verify_checksum", || f.verify_checksum());
+        p.acc("get_key", || f.get_key());
+        p.acc("payload", || f.payload().len());
+        p.display("packet", || Ipv4Packet::new_unchecked(b));
+    }
+    for c in both_caps() {
+        p.parse("Ipv4Repr::parse", || Ipv4Repr::parse(&Ipv4Packet::new_unchecked(b), &c));
+    }
+    p.pretty::<Ipv4Packet<&[u8]>>(b);
+}
+fn p_ipv6(b: &[u8], p: &mut P) {
+    if p.chk(|| Ipv6Packet::new_checked(b)) {
+        let f = Ipv6Packet::new_unchecked(b);
+        p.acc("version", || f.version());
+        p.acc("traffic_class", || f.traffic_class());
+        p.acc("flow_label", || f.flow_label());
+        p.acc("payload_len", || f.payload_len());
+        p.acc("total_len", || f.total_len());
+        p.acc("next_header", || f.next_header());
+        p.acc("hop_limit", || f.hop_limit());
+        p.acc("src_addr", || f.src_addr());
+        p.acc("dst_addr", || f.dst_addr());
+        p.acc("payload", || f.payload().len());
+        p.display("packet", || Ipv6Packet::new_unchecked(b));
+    }
+    p.parse("Ipv6Repr::parse", || Ipv6Repr::parse(&Ipv6Packet::new_unchecked(b)));
+    p.pretty::<Ipv6Packet<&[u8]>>(b);
+}
+fn p_ipv6ext(b: &[u8], p: &mut P) {
+    if p.chk(|| Ipv6ExtHeader::new_checked(b)) {
+        let f = Ipv6ExtHeader::new_unchecked(b);
+        p.acc("next_header", || f.next_header());
+        p.acc("header_len", || f.header_len());
+        p.acc("payload", || f.payload().len());
+        p.parse("Ipv6ExtHeaderRepr::parse", || Ipv6ExtHeaderRepr::parse(&f));
+    }
+}
+fn p_ipv6frag(b: &[u8], p: &mut P) {
+    if p.chk(|| Ipv6FragmentHeader::new_checked(b)) {
+        let f = Ipv6FragmentHeader::new_unchecked(b);
+        p.acc("frag_offset", || f.frag_offset());
+        p.acc("more_frags", || f.more_frags());
+        p.acc("ident", || f.ident());
+        p.display("header", || Ipv6FragmentHeader::new_unchecked(b));
+        p.parse("Ipv6FragmentRepr::parse", || Ipv6FragmentRepr::parse(&f));
+    }
+}
+fn p_ipv6hbh(b: &[u8], p: &mut P) {
+    if p.chk(|| Ipv6HopByHopHeader::new_checked(b)) {
+        let f = Ipv6HopByHopHeader::new_unchecked(b);
+        p.acc("options", || f.options().len());
+        p.acc("options iterator", || {
+            let mut n = 0;
+            for o in Ipv6OptionsIterator::new(f.options()) {
+                n += o.is_ok() as u32;
+            }
+            n
+        });
+        p.parse("Ipv6HopByHopRepr::parse", || Ipv6HopByHopRepr::parse(&f).map(|r| r.buffer_len()));
+    }
+    // the iterator itself over arbitrary bytes
+    p.acc("Ipv6OptionsIterator", || Ipv6OptionsIterator::new(b).count());
+}
+fn p_ipv6opt(b: &[u8], p: &mut P) {
+    if p.chk(|| Ipv6Option::new_checked(b)) {
+        let f = Ipv6Option::new_unchecked(b);
+        let ty = p.acc("option_type", || f.option_type());
+        if ty != Some(Ipv6OptionType::Pad1) {
+            p.acc("data_len", || f.data_len());
+            p.acc("data", || f.data().len());
+        }
+        p.display("option", || Ipv6Option::new_unchecked(b));
+    }
+    p.parse("Ipv6OptionRepr::parse", || Ipv6OptionRepr::parse(&Ipv6Option::new_unchecked(b)).map(|r| format!("{}", r)));
+}
+fn p_ipv6routing(b: &[u8], p: &mut P) {
+    if p.chk(|| Ipv6RoutingHeader::new_checked(b)) {
+        let f = Ipv6RoutingHeader::new_unchecked(b);
+        let ty = p.acc("routing_type", || f.routing_type());
+        p.acc("segments_left", || f.segments_left());
+        match ty {
+            Some(Ipv6RoutingType::Type2) => {
+                p.acc("home_address", || f.home_address());
+            }
+            Some(Ipv6RoutingType::Rpl) => {
+                p.acc("cmpr_i", || f.cmpr_i());
+                p.acc("cmpr_e", || f.cmpr_e());
+                p.acc("pad", || f.pad());
+                p.acc("addresses", || f.addresses().len());
+            }
+            _ => {}
+        }
+        p.display("header", || Ipv6RoutingHeader::new_unchecked(b));
+        p.parse("Ipv6RoutingRepr::parse", || Ipv6RoutingRepr::parse(&f).map(|r| format!("{}", r)));
+    }
+}
+fn p_icmpv4(b: &[u8], p: &mut P) {
+    if p.chk(|| Icmpv4Packet::new_checked(b)) {
+        let f = Icmpv4Packet::new_unchecked(b);
+        let ty = p.acc("msg_type", || f.msg_type());
+        p.acc("msg_code", || f.msg_code());
+        p.acc("checksum", || f.checksum());
+        if matches!(ty, Some(Icmpv4Message::EchoRequest) | Some(Icmpv4Message::EchoReply)) {
+            p.acc("echo_ident", || f.echo_ident());
+            p.acc("echo_seq_no", || f.echo_seq_no());
+        }
+        p.acc("header_len", || f.header_len());
+        p.acc("verify_checksum", || f.verify_checksum());
+        p.acc("data", || f.data().len());
+        p.display("packet", || Icmpv4Packet::new_unchecked(b));
+    }
+    for c in both_caps() {
+        p.parse("Icmpv4Repr::parse", || Icmpv4Repr::parse(&Icmpv4Packet::new_unchecked(b), &c).map(|r| format!("{}", r)));
+    }
+    p.pretty::<Icmpv4Packet<&[u8]>>(b);
+}
+fn p_icmpv6(b: &[u8], p: &mut P) {
+    if p.chk(|| Icmpv6Packet::new_checked(b)) {
+        let f = Icmpv6Packet::new_unchecked(b);
+        let ty = p.acc("msg_type", || f.msg_type());
+        p.acc("msg_code", || f.msg_code());
+        p.acc("checksum", || f.checksum());
+        p.acc("header_len", || f.header_len());
+        p.acc("verify_checksum", || f.verify_checksum(&v6a(), &v6b()));
+        p.acc("payload", || f.payload().len());
+        match ty {
+            Some(Icmpv6Message::EchoRequest) | Some(Icmpv6Message::EchoReply) => {
+                p.acc("echo_ident", || f.echo_ident());
+                p.acc("echo_seq_no", || f.echo_seq_no());
+            }
+            Some(Icmpv6Message::PktTooBig) => {
+                p.acc("pkt_too_big_mtu", || f.pkt_too_big_mtu());
+            }
+            Some(Icmpv6Message::ParamProblem) => {
+                p.acc("param_problem_ptr", || f.param_problem_ptr());
+            }
+            Some(Icmpv6Message::RouterAdvert) => {
+                p.acc("current_hop_limit", || f.current_hop_limit());
+                p.acc("router_flags", || f.router_flags());
+                p.acc("router_lifetime", || f.router_lifetime());
+                p.acc("reachable_time", || f.reachable_time());
+                p.acc("retrans_time", || f.retrans_time());
+            }
+            Some(Icmpv6Message::NeighborSolicit) => {
+                p.acc("target_addr", || f.target_addr());
+            }
+            Some(Icmpv6Message::NeighborAdvert) => {
+                p.acc("neighbor_flags", || f.neighbor_flags());
+                p.acc("target_addr", || f.target_addr());
+            }
+            Some(Icmpv6Message::Redirect) => {
+                p.acc("target_addr", || f.target_addr());
+                p.acc("dest_addr", || f.dest_addr());
+            }
+            Some(Icmpv6Message::MldQuery) => {
+                p.acc("max_resp_code", || f.max_resp_code());
+                p.acc("mcast_addr", || f.mcast_addr());
+                p.acc("s_flag", || f.s_flag());
+                p.acc("qrv", || f.qrv());
+                p.acc("qqic", || f.qqic());
+                p.acc("num_srcs", || f.num_srcs());
+            }
+            Some(Icmpv6Message::MldReport) => {
+                p.acc("nr_mcast_addr_rcrds", || f.nr_mcast_addr_rcrds());
+            }
+            _ => {}
+        }
+    }
+    for c in both_caps() {
+        p.parse("Icmpv6Repr::parse", || Icmpv6Repr::parse(&v6a(), &v6b(), &Icmpv6Packet::new_unchecked(b), &c).map(|r| format!("{:?}", r)));
+    }
+    // the typed parsers directly (they re-check)
+    p.parse("NdiscRepr::parse", || NdiscRepr::parse(&Icmpv6Packet::new_unchecked(b)).map(|r| format!("{:?}", r)));
+    p.parse("MldRepr::parse", || MldRepr::parse(&Icmpv6Packet::new_unchecked(b)).map(|r| format!("{:?}", r)));
+}
+fn p_mldrecord(b: &[u8], p: &mut P) {
+    if p.chk(|| MldAddressRecord::new_checked(b)) {
+        let f = MldAddressRecord::new_unchecked(b);
+        p.acc("record_type", || f.record_type());
+        p.acc("aux_data_len", || f.aux_data_len());
+        p.acc("num_srcs", || f.num_srcs());
+        p.acc("mcast_addr", || f.mcast_addr());
+        p.acc("payload", || f.payload().len());
+    }
+    p.parse("MldAddressRecordRepr::parse", || MldAddressRecordRepr::parse(&MldAddressRecord::new_unchecked(b)).map(|r| r.buffer_len()));
+}
+fn p_ndiscopt(b: &[u8], p: &mut P) {
+    if p.chk(|| NdiscOption::new_checked(b)) {
+        let f = NdiscOption::new_unchecked(b);
+        let ty = p.acc("option_type", || f.option_type());
+        p.acc("data_len", || f.data_len());
+        match ty {
+            Some(NdiscOptionType::SourceLinkLayerAddr) | Some(NdiscOptionType::TargetLinkLayerAddr) => {
+                p.acc("link_layer_addr", || f.link_layer_addr());
+            }
+            Some(NdiscOptionType::Mtu) => {
+                p.acc("mtu", || f.mtu());
+            }
+            Some(NdiscOptionType::PrefixInformation) => {
+                p.acc("prefix_len", || f.prefix_len());
+                p.acc("prefix_flags", || f.prefix_flags());
+                p.acc("valid_lifetime", || f.valid_lifetime());
+                p.acc("preferred_lifetime", || f.preferred_lifetime());
+                p.acc("prefix", || f.prefix());
+            }
+            Some(NdiscOptionType::RedirectedHeader) => {
+                p.acc("data", || f.data().len());
+            }
+            _ => {}
+        }
+    }
+    p.parse("NdiscOptionRepr::parse", || NdiscOptionRepr::parse(&NdiscOption::new_unchecked(b)).map(|r| format!("{}", r)));
+    p.pretty::<NdiscOption<&[u8]>>(b);
+}
+fn p_igmp(b: &[u8], p: &mut P) {
+    if p.chk(|| IgmpPacket::new_checked(b)) {
+        let f = IgmpPacket::new_unchecked(b);
+        p.acc("msg_type", || f.msg_type());
+        p.acc("max_resp_code", || f.max_resp_code());
+        p.acc("checksum", || f.checksum());
+        p.acc("group_addr", || f.group_addr());
+        p.acc("verify_checksum", || f.verify_checksum());
+        p.display("packet", || IgmpPacket::new_unchecked(b));
+    }
+    p.parse("IgmpRepr::parse", || IgmpRepr::parse(&IgmpPacket::new_unchecked(b)).map(|r| format!("{}", r)));
+    p.pretty::<IgmpPacket<&[u8]>>(b);
+}
+fn p_udp(b: &[u8], p: &mut P) {
+    if p.chk(|| UdpPacket::new_checked(b)) {
+        let f = UdpPacket::new_unchecked(b);
+        p.acc("src_port", || f.src_port());
+        p.acc("dst_port", || f.dst_port());
+        p.acc("len", || f.len());
+        p.acc("checksum", || f.checksum());
+        p.acc("payload", || f.payload().len());
+        p.acc("verify_checksum v4", || f.verify_checksum(&v4a(), &v4b()));
+        p.acc("verify_checksum v6", || f.verify_checksum(&IpAddress::Ipv6(v6a()), &IpAddress::Ipv6(v6b())));
+        p.acc("verify_partial_checksum", || f.verify_partial_checksum(&v4a(), &v4b()));
+        p.display("packet", || UdpPacket::new_unchecked(b));
+    }
+    for c in both_caps() {
+        p.parse("UdpRepr::parse v4", || UdpRepr::parse(&UdpPacket::new_unchecked(b), &v4a(), &v4b(), &c));
+        p.parse("UdpRepr::parse v6", || UdpRepr::parse(&UdpPacket::new_unchecked(b), &IpAddress::Ipv6(v6a()), &IpAddress::Ipv6(v6b()), &c));
+    }
+    p.pretty::<UdpPacket<&[u8]>>(b);
+}
+fn p_tcp(b: &[u8], p: &mut P) {
+    if p.chk(|| TcpPacket::new_checked(b)) {
+        let f = TcpPacket::new_unchecked(b);
+        p.acc("src_port", || f.src_port());
+        p.acc("dst_port", || f.dst_port());
+        p.acc("seq_number", || f.seq_number());
+        p.acc("ack_number", || f.ack_number());
+        p.acc("flags", || (f.fin(), f.syn(), f.rst(), f.psh(), f.ack(), f.urg(), f.ece(), f.cwr(), f.ns()));
+        p.acc("header_len", || f.header_len());
+        p.acc("window_len", || f.window_len());
+        p.acc("checksum", || f.checksum());
+        p.acc("urgent_at", || f.urgent_at());
+        p.acc("segment_len", || f.segment_len());
+        p.acc("options", || f.options().len());
+        p.acc("payload", || f.payload().len());
+        p.acc("selective_ack_permitted", || f.selective_ack_permitted().is_ok());
+        p.acc("selective_ack_ranges", || f.selective_ack_ranges().is_ok());
+        p.acc("options_summary", || f.options_summary().is_ok());
+        p.acc("verify_checksum", || f.verify_checksum(&v4a(), &v4b()));
+        p.acc("verify_partial_checksum", || f.verify_partial_checksum(&v4a(), &v4b()));
+        p.display("packet", || TcpPacket::new_unchecked(b));
+    }
+    for c in both_caps() {
+        p.parse("TcpRepr::parse", || TcpRepr::parse(&TcpPacket::new_unchecked(b), &v4a(), &v4b(), &c).map(|r| format!("{}", r)));
+    }
+    // TcpOption::parse walk over arbitrary bytes
+    p.acc("TcpOption::parse walk", || {
+        let mut o = b;
+        let mut n = 0;
+        while !o.is_empty() {
+            match TcpOption::parse(o) {
+                Ok((rest, _)) => {
+                    o = rest;
+                    n += 1
+                }
+                Err(_) => break,
+            }
+        }
+        n
+    });
+    p.pretty::<TcpPacket<&[u8]>>(b);
+}
+fn p_dhcp(b: &[u8], p: &mut P) {
+    if p.chk(|| DhcpPacket::new_checked(b)) {
+        let f = DhcpPacket::new_unchecked(b);
+        p.acc("opcode", || f.opcode());
+        p.acc("hardware_type", || f.hardware_type());
+        p.acc("hardware_len", || f.hardware_len());
+        p.acc("transaction_id", || f.transaction_id());
+        p.acc("client_hardware_address", || f.client_hardware_address());
+        p.acc("hops", || f.hops());
+        p.acc("secs", || f.secs());
+        p.acc("magic_number", || f.magic_number());
+        p.acc("client_ip", || f.client_ip());
+        p.acc("your_ip", || f.your_ip());
+        p.acc("server_ip", || f.server_ip());
+        p.acc("relay_agent_ip", || f.relay_agent_ip());
+        p.acc("flags", || f.flags());
+        p.acc("options", || f.options().map(|o| o.data.len()).sum::<usize>());
+        p.acc("get_sname", || f.get_sname().is_ok());
+        p.acc("get_boot_file", || f.get_boot_file().is_ok());
+    }
+    p.parse("DhcpRepr::parse", || {
+        let pk = DhcpPacket::new_unchecked(b);
+        DhcpRepr::parse(&pk).map(|r| r.buffer_len())
+    });
+}
+fn p_dns(b: &[u8], p: &mut P) {
+    if p.chk(|| DnsPacket::new_checked(b)) {
+        let f = DnsPacket::new_unchecked(b);
+        p.acc("transaction_id", || f.transaction_id());
+        p.acc("flags", || f.flags());
+        p.acc("opcode", || f.opcode());
+        p.acc("rcode", || f.rcode());
+        p.acc("counts", || (f.question_count(), f.answer_record_count(), f.authority_record_count(), f.additional_record_count()));
+        p.acc("payload", || f.payload().len());
+        // the way the DNS socket walks a response: questions, then records, names through parse_name
+        p.acc("walk", || {
+            let mut payload = f.payload();
+            let mut n = 0usize;
+            for _ in 0..f.question_count().min(8) {
+                match DnsQuestion::parse(payload) {
+                    Ok((rest, q)) => {
+                        n += f.parse_name(q.name).count();
+                        payload = rest
+                    }
+                    Err(_) => return n,
+                }
+            }
+            for _ in 0..f.answer_record_count().min(16) {
+                match DnsRecord::parse(payload) {
+                    Ok((rest, r)) => {
+                        n += f.parse_name(r.name).count();
+                        if let DnsRecordData::Cname(name) = r.data {
+                            n += f.parse_name(name).count();
+                        }
+                        payload = rest
+                    }
+                    Err(_) => return n,
+                }
+            }
+            n
+        });
+        // parse_name from every offset (pointer loops, forward pointers, self references)
+        p.acc("parse_name at every offset", || {
+            let mut n = 0usize;
+            let lim = b.len().min(96);
+            for off in 0..lim {
+                n += f.parse_name(&b[off..]).take(300).count();
+            }
+            n
+        });
+    }
+    p.parse("DnsQuestion::parse", || DnsQuestion::parse(b).map(|x| x.0.len()));
+    p.parse("DnsRecord::parse", || DnsRecord::parse(b).map(|x| x.0.len()));
+}
+fn p_154(b: &[u8], p: &mut P) {
+    if p.chk(|| Ieee802154Frame::new_checked(b)) {
+        let f = Ieee802154Frame::new_unchecked(b);
+        p.acc("frame_type", || f.frame_type());
+        p.acc("fc bits", || (f.security_enabled(), f.frame_pending(), f.ack_request(), f.pan_id_compression(), f.sequence_number_suppression(), f.ie_present()));
+        p.acc("dst_addressing_mode", || f.dst_addressing_mode());
+        p.acc("frame_version", || f.frame_version());
+        p.acc("src_addressing_mode", || f.src_addressing_mode());
+        p.acc("sequence_number", || f.sequence_number());
+        p.acc("dst_pan_id", || f.dst_pan_id());
+        p.acc("dst_addr", || f.dst_addr());
+        p.acc("src_pan_id", || f.src_pan_id());
+        p.acc("src_addr", || f.src_addr());
+        if f.security_enabled() {
+            p.acc("security_level", || f.security_level());
+            p.acc("key_identifier_mode", || f.key_identifier_mode());
+            p.acc("frame_counter_suppressed", || f.frame_counter_suppressed());
+            p.acc("frame_counter", || f.frame_counter());
+            p.acc("key_source", || f.key_source().map(|x| x.len()));
+            p.acc("key_index", || f.key_index());
+            p.acc("message_integrity_code", || f.message_integrity_code().map(|x| x.len()));
+        }
+        p.acc("mac_header", || f.mac_header().len());
+        p.acc("payload", || f.payload().map(|x| x.len()));
+        p.display("frame", || Ieee802154Frame::new_unchecked(b));
+    }
+    p.parse("Ieee802154Repr::parse", || Ieee802154Repr::parse(&Ieee802154Frame::new_unchecked(b)).map(|r| r.buffer_len()));
+}
+fn lls() -> [Option<Ieee802154Address>; 3] {
+    [None, Some(Ieee802154Address::Short([0x12, 0x34])), Some(Ieee802154Address::Extended([2, 0, 0, 0, 0, 0, 0, 1]))]
+}
+fn p_sixlowpan(b: &[u8], p: &mut P) {
+    p.parse("SixlowpanPacket::dispatch", || SixlowpanPacket::dispatch(b));
+    p.parse("SixlowpanNhcPacket::dispatch", || SixlowpanNhcPacket::dispatch(b));
+}
+fn p_sixfrag(b: &[u8], p: &mut P) {
+    if p.chk(|| SixlowpanFragPacket::new_checked(b)) {
+        let f = SixlowpanFragPacket::new_unchecked(b);
+        p.acc("dispatch", || f.dispatch());
+        p.acc("datagram_size", || f.datagram_size());
+        p.acc("datagram_tag", || f.datagram_tag());
+        p.acc("datagram_offset", || f.datagram_offset());
+        p.acc("is_first_fragment", || f.is_first_fragment());
+        p.acc("payload", || f.payload().len());
+    }
+    p.parse("SixlowpanFragRepr::parse", || SixlowpanFragRepr::parse(&SixlowpanFragPacket::new_unchecked(b)));
+}
+fn p_iphc(b: &[u8], p: &mut P) {
+    if p.chk(|| SixlowpanIphcPacket::new_checked(b)) {
+        let f = SixlowpanIphcPacket::new_unchecked(b);
+        p.acc("next_header", || f.next_header());
+        p.acc("hop_limit", || f.hop_limit());
+        p.acc("src_context_id", || f.src_context_id());
+        p.acc("dst_context_id", || f.dst_context_id());
+        p.acc("ecn_field", || f.ecn_field());
+        p.acc("dscp_field", || f.dscp_field());
+        p.acc("flow_label_field", || f.flow_label_field());
+        p.acc("src_addr", || f.src_addr().is_ok());
+        p.acc("dst_addr", || f.dst_addr().is_ok());
+        p.acc("header_len", || f.header_len());
+        p.acc("payload", || f.payload().len());
+    }
+    let ctx = [SixlowpanAddressContext([0x20, 0x01, 0x0d, 0xb8, 0, 0, 0, 1])];
+    for s in lls() {
+        for d in lls() {
+            p.parse("SixlowpanIphcRepr::parse", || SixlowpanIphcRepr::parse(&SixlowpanIphcPacket::new_unchecked(b), s, d, &[]).map(|r| r.buffer_len()));
+            p.parse("SixlowpanIphcRepr::parse ctx", || SixlowpanIphcRepr::parse(&SixlowpanIphcPacket::new_unchecked(b), s, d, &ctx).map(|r| r.buffer_len()));
+        }
+    }
+}
+fn p_nhcext(b: &[u8], p: &mut P) {
+    if p.chk(|| SixlowpanExtHeaderPacket::new_checked(b)) {
+        let f = SixlowpanExtHeaderPacket::new_unchecked(b);
+        p.acc("extension_header_id", || f.extension_header_id());
+        p.acc("length", || f.length());
+        p.acc("next_header", || f.next_header());
+        p.acc("payload", || f.payload().len());
+    }
+    p.parse("SixlowpanExtHeaderRepr::parse", || SixlowpanExtHeaderRepr::parse(&SixlowpanExtHeaderPacket::new_unchecked(b)).map(|r| r.buffer_len()));
+}
+fn p_nhcudp(b: &[u8], p: &mut P) {
+    if p.chk(|| SixlowpanUdpNhcPacket::new_checked(b)) {
+        let f = SixlowpanUdpNhcPacket::new_unchecked(b);
+        p.acc("src_port", || f.src_port());
+        p.acc("dst_port", || f.dst_port());
+        p.acc("checksum", || f.checksum());
+        p.acc("payload", || f.payload().len());
+    }
+    for c in both_caps() {
+        p.parse("SixlowpanUdpNhcRepr::parse", || SixlowpanUdpNhcRepr::parse(&SixlowpanUdpNhcPacket::new_unchecked(b), &v6a(), &v6b(), &c).map(|r| r.header_len()));
+    }
+}
+
+// ---------------------------------------------------------------- base packets
+type Probe = fn(&[u8], &mut P);
+struct Ty {
+    name: &'static str,
+    probe: Probe,
+    base: fn(&mut Rng) -> Vec<u8>,
+    fields: &'static [(usize, usize)],
+}
+
+fn b_eth(r: &mut Rng) -> Vec<u8> {
+    // Ethernet + a nested IPv4/UDP, IPv6/TCP or ARP packet so that the pretty printer descends
+    let mut v = vec![];
+    v.extend_from_slice(&gen_mac(r));
+    v.extend_from_slice(&gen_mac(r));
+    match r.below(4) {
+        0 => {
+            v.extend_from_slice(&[0x08, 0x06]);
+            v.extend(b_arp(r));
+        }
+        1 => {
+            v.extend_from_slice(&[0x08, 0x00]);
+            v.extend(b_ipv4(r));
+        }
+        2 => {
+            v.extend_from_slice(&[0x86, 0xdd]);
+            v.extend(b_ipv6(r));
+        }
+        _ => {
+            v.extend_from_slice(&gen_u16(r).to_be_bytes());
+            let n = r.below(40) as usize;
+            v.extend(r.bytes(n));
+        }
+    }
+    v
+}
+fn b_arp(r: &mut Rng) -> Vec<u8> {
+    let mut v = vec![0, 1, 8, 0, 6, 4, 0, 1 + r.below(2) as u8];
+    v.extend_from_slice(&gen_mac(r));
+    v.extend_from_slice(&gen_ipv4(r));
+    v.extend_from_slice(&gen_mac(r));
+    v.extend_from_slice(&gen_ipv4(r));
+    v
+}
+fn b_ipv4(r: &mut Rng) -> Vec<u8> {
+    let (proto, inner) = match r.below(4) {
+        0 => (1u8, b_icmpv4(r)),
+        1 => (17, b_udp(r)),
+        2 => (6, b_tcp(r)),
+        _ => (2, b_igmp(r)),
+    };
+    let repr = Ipv4Repr { src_addr: Ipv4Address::new(10, 0, 0, 1), dst_addr: Ipv4Address::new(10, 0, 0, 2), next_header: IpProtocol::from(proto), payload_len: inner.len(), hop_limit: 64 };
+    let mut v = vec![0u8; 20];
+    repr.emit(&mut Ipv4Packet::new_unchecked(&mut v[..]), &ChecksumCapabilities::default());
+    v.extend(inner);
+    v
+}
+fn b_ipv6(r: &mut Rng) -> Vec<u8> {
+    let (proto, inner) = match r.below(3) {
+        0 => (58u8, b_icmpv6(r)),
+        1 => (17, b_udp(r)),
+        _ => (6, b_tcp(r)),
+    };
+    let repr = Ipv6Repr { src_addr: v6a(), dst_addr: v6b(), next_header: IpProtocol::from(proto), payload_len: inner.len(), hop_limit: 64 };
+    let mut v = vec![0u8; 40];
+    repr.emit(&mut Ipv6Packet::new_unchecked(&mut v[..]));
+    v.extend(inner);
+    v
+}
+fn b_udp(r: &mut Rng) -> Vec<u8> {
+    let n = r.below(24) as usize;
+    let pl = r.bytes(n);
+    let mut v = vec![0u8; 8 + n];
+    UdpRepr { src_port: gen_u16(r), dst_port: gen_u16(r) | 1 }.emit(&mut UdpPacket::new_unchecked(&mut v[..]), &v4a(), &v4b(), n, |b| b.copy_from_slice(&pl), &ChecksumCapabilities::default());
+    v
+}
+fn b_tcp(r: &mut Rng) -> Vec<u8> {
+    let f = super::super::fmt_tcp::gen_fields(r, "quick", true);
+    let kv = Kv::parse(&f);
+    let len = super::super::fmt_tcp::with_repr(&kv, |x| x.buffer_len());
+    let mut v = vec![0u8; len];
+    super::super::fmt_tcp::with_repr(&kv, |x| x.emit(&mut TcpPacket::new_unchecked(&mut v[..]), &v4a(), &v4b(), &ChecksumCapabilities::default()));
+    v
+}
+fn b_icmpv4(r: &mut Rng) -> Vec<u8> {
+    let mut v = vec![*r.pick(&[0u8, 3, 8, 11, 5, 12]), gen_u8(r) & 3, 0, 0, 0, 0, 0, 0];
+    if v[0] == 3 || v[0] == 11 {
+        let mut inner = vec![0x45, 0, 0, 28, 0, 0, 0x40, 0, 64, 17, 0, 0, 10, 0, 0, 1, 10, 0, 0, 2];
+        inner.extend(r.bytes(8));
+        v.extend(inner);
+    } else {
+        let n = r.below(16) as usize;
+        v.extend(r.bytes(n));
+    }
+    let mut p = Icmpv4Packet::new_unchecked(&mut v[..]);
+    p.fill_checksum();
+    v
+}
+fn b_icmpv6(r: &mut Rng) -> Vec<u8> {
+    let ty = *r.pick(&[1u8, 2, 3, 4, 128, 129, 130, 133, 134, 135, 136, 137, 143]);
+    let hl = match ty {
+        134 => 16,
+        135 | 136 => 24,
+        137 => 40,
+        130 => 28,
+        _ => 8,
+    };
+    let mut v = vec![0u8; hl];
+    v[0] = ty;
+    for x in v[4..].iter_mut() {
+        *x = gen_u8(r);
+    }
+    match ty {
+        1..=4 => {
+            let mut inner = vec![0x60, 0, 0, 0, 0, 8, 17, 64];
+            inner.extend_from_slice(&v6a().octets());
+            inner.extend_from_slice(&v6b().octets());
+            inner.extend(r.bytes(8));
+            v.extend(inner);
+        }
+        133..=137 => {
+            // NDISC options
+            for _ in 0..r.below(3) {
+                match r.below(4) {
+                    0 => v.extend_from_slice(&[1, 1, 2, 0, 0, 0, 0, 1]),
+                    1 => v.extend_from_slice(&[5, 1, 0, 0, 0, 0, 5, 220]),
+                    2 => {
+                        v.extend_from_slice(&[3, 4, 64, 0xc0, 0, 0, 3, 132, 0, 0, 3, 132, 0, 0, 0, 0]);
+                        v.extend_from_slice(&[0x20, 1, 0xd, 0xb8, 0, 0, 0, 0, 0, 0, 0, 0, 0, 0, 0, 0]);
+                    }
+                    _ => {
+                        v.extend_from_slice(&[4, 6, 0, 0, 0, 0, 0, 0]);
+                        v.extend(r.bytes(40));
+                    }
+                }
+            }
+        }
+        143 => {
+            v[6] = 0;
+            v[7] = 1;
+            v.extend_from_slice(&[1, 0, 0, 1]);
+            v.extend_from_slice(&v6b().octets());
+            v.extend_from_slice(&v6a().octets());
+        }
+        _ => {
+            let n = r.below(16) as usize;
+            v.extend(r.bytes(n));
+        }
+    }
+    let (a, b) = (v6a(), v6b());
+    let mut p = Icmpv6Packet::new_unchecked(&mut v[..]);
+    p.fill_checksum(&a, &b);
+    v
+}
+fn b_igmp(r: &mut Rng) -> Vec<u8> {
+    let mut v = vec![*r.pick(&[0x11u8, 0x12, 0x16, 0x17, 0x22]), gen_u8(r), 0, 0, 224, 0, 0, gen_u8(r)];
+    let mut p = IgmpPacket::new_unchecked(&mut v[..]);
+    p.fill_checksum();
+    v
+}
+fn b_ipv6ext(r: &mut Rng) -> Vec<u8> {
+    let words = r.below(4) as usize;
+    let mut v = vec![*r.pick(&[6u8, 17, 58, 0, 43, 44, 59, 60]), words as u8];
+    v.extend(r.bytes(6 + 8 * words));
+    v
+}
+fn b_ipv6frag(r: &mut Rng) -> Vec<u8> {
+    r.bytes(6)
+}
+fn b_ipv6hbh(r: &mut Rng) -> Vec<u8> {
+    let mut v = vec![];
+    for _ in 0..r.range(1, 5) {
+        match r.below(5) {
+            0 => v.push(0),
+            1 => {
+                let n = r.below(6) as u8;
+                v.push(1);
+                v.push(n);
+                v.extend(vec![0u8; n as usize]);
+            }
+            2 => v.extend_from_slice(&[5, 2, 0, 0]),
+            3 => v.extend_from_slice(&[0x63, 4, 0, 0x1e, 0, 1]),
+            _ => {
+                let n = r.below(8) as u8;
+                v.push(*r.pick(&[0x3eu8, 0x7e, 0xbe, 0xfe, 0x22]));
+                v.push(n);
+                v.extend(r.bytes(n as usize));
+            }
+        }
+    }
+    v
+}
+fn b_ipv6routing(r: &mut Rng) -> Vec<u8> {
+    if r.chance(1, 2) {
+        let mut v = vec![2, 1, 0, 0, 0, 0];
+        v.extend_from_slice(&v6a().octets());
+        v
+    } else {
+        let mut v = vec![3, gen_u8(r) & 7, (r.below(16) as u8) << 4 | r.below(16) as u8, (r.below(16) as u8) << 4, 0, 0];
+        let n = r.below(40) as usize;
+        v.extend(r.bytes(n));
+        v
+    }
+}
+fn b_mldrecord(r: &mut Rng) -> Vec<u8> {
+    let n = r.below(3) as usize;
+    let mut v = vec![r.range(1, 6) as u8, 0, 0, n as u8];
+    v.extend_from_slice(&v6b().octets());
+    for _ in 0..n {
+        v.extend_from_slice(&v6a().octets());
+    }
+    v
+}
+fn b_ndiscopt(r: &mut Rng) -> Vec<u8> {
+    match r.below(5) {
+        0 => vec![1, 1, 2, 0, 0, 0, 0, 1],
+        1 => vec![2, 2, 2, 0, 0, 0, 0, 0, 0, 1, 0, 0, 0, 0, 0, 0],
+        2 => vec![5, 1, 0, 0, 0, 0, 5, 220],
+        3 => {
+            let mut v = vec![3, 4, 64, 0xc0, 0, 0, 3, 132, 0, 0, 3, 132, 0, 0, 0, 0];
+            v.extend_from_slice(&[0x20, 1, 0xd, 0xb8, 0, 0, 0, 0, 0, 0, 0, 0, 0, 0, 0, 0]);
+            v
+        }
+        _ => {
+            let mut v = vec![4, 7, 0, 0, 0, 0, 0, 0];
+            v.extend_from_slice(&[0x60, 0, 0, 0, 0, 8, 17, 64]);
+            v.extend_from_slice(&v6a().octets());
+            v.extend_from_slice(&v6b().octets());
+            v.extend(r.bytes(8));
+            v
+        }
+    }
+}
+fn b_dhcp(r: &mut Rng) -> Vec<u8> {
+    let mut v = vec![0u8; 240];
+    v[0] = 1 + r.below(2) as u8;
+    v[1] = 1;
+    v[2] = 6;
+    for x in v[4..8].iter_mut() {
+        *x = r.next() as u8
+    }
+    v[28..34].copy_from_slice(&gen_mac(r));
+    v[236..240].copy_from_slice(&[0x63, 0x82, 0x53, 0x63]);
+    v.extend_from_slice(&[53, 1, r.range(1, 8) as u8]);
+    for _ in 0..r.below(8) {
+        match r.below(8) {
+            0 => v.extend_from_slice(&[54, 4, 10, 0, 0, 1]),
+            1 => v.extend_from_slice(&[51, 4, 0, 0, 14, 16]),
+            2 => v.extend_from_slice(&[1, 4, 255, 255, 255, 0]),
+            3 => v.extend_from_slice(&[3, 4, 10, 0, 0, 1]),
+            4 => v.extend_from_slice(&[6, 8, 8, 8, 8, 8, 1, 1, 1, 1]),
+            5 => v.extend_from_slice(&[61, 7, 1, 2, 3, 4, 5, 6, 7]),
+            6 => v.push(0),
+            _ => {
+                let n = r.below(12) as u8;
+                v.push(gen_u8(r).max(2));
+                v.push(n);
+                v.extend(r.bytes(n as usize));
+            }
+        }
+    }
+    v.push(255);
+    v
+}
+fn b_dns(r: &mut Rng) -> Vec<u8> {
+    let mut v = vec![gen_u8(r), gen_u8(r), 0x81, 0x80, 0, 1, 0, r.below(3) as u8, 0, 0, 0, 0];
+    v.extend_from_slice(&[3, b'w', b'w', b'w', 7, b'e', b'x', b'a', b'm', b'p', b'l', b'e', 3, b'c', b'o', b'm', 0, 0, 1, 0, 1]);
+    for _ in 0..v[7] {
+        match r.below(3) {
+            0 => v.extend_from_slice(&[0xc0, 0x0c, 0, 1, 0, 1, 0, 0, 0, 60, 0, 4, 1, 2, 3, 4]),
+            1 => v.extend_from_slice(&[0xc0, 0x0c, 0, 5, 0, 1, 0, 0, 0, 60, 0, 4, 1, b'a', 0xc0, 0x10]),
+            _ => v.extend_from_slice(&[0xc0, 0x10, 0, 28, 0, 1, 0, 0, 0, 60, 0, 16, 0, 0, 0, 0, 0, 0, 0, 0, 0, 0, 0, 0, 0, 0, 0, 1]),
+        }
+    }
+    v
+}
+fn b_154(r: &mut Rng) -> Vec<u8> {
+    let repr = Ieee802154Repr {
+        frame_type: *r.pick(&[Ieee802154FrameType::Data, Ieee802154FrameType::Beacon, Ieee802154FrameType::Acknowledgement, Ieee802154FrameType::MacCommand]),
+        security_enabled: false,
+        frame_pending: r.chance(1, 4),
+        ack_request: r.chance(1, 2),
+        sequence_number: Some(gen_u8(r)),
+        pan_id_compression: r.chance(1, 2),
+        frame_version: *r.pick(&[Ieee802154FrameVersion::Ieee802154_2003, Ieee802154FrameVersion::Ieee802154_2006, Ieee802154FrameVersion::Ieee802154]),
+        dst_pan_id: Some(Ieee802154Pan(gen_u16(r))),
+        dst_addr: lls()[r.below(3) as usize].or(Some(Ieee802154Address::Absent)),
+        src_pan_id: Some(Ieee802154Pan(gen_u16(r))),
+        src_addr: lls()[r.below(3) as usize].or(Some(Ieee802154Address::Absent)),
+    };
+    let mut v = vec![0u8; repr.buffer_len()];
+    if guard(|| repr.emit(&mut Ieee802154Frame::new_unchecked(&mut v[..]))).is_none() {
+        v = vec![0x41, 0xd8, 1, 0xcd, 0xab, 0xff, 0xff, 1, 2, 3, 4, 5, 6, 7, 8];
+    }
+    if r.chance(1, 4) && !v.is_empty() {
+        v[0] |= 0x08; // security enabled: an auxiliary header follows the addressing fields
+        let n = r.below(16) as usize;
+        v.extend(r.bytes(n));
+    }
+    let n = r.below(24) as usize;
+    v.extend(r.bytes(n));
+    v
+}
+fn b_sixfrag(r: &mut Rng) -> Vec<u8> {
+    let first = r.chance(1, 2);
+    let mut v = vec![if first { 0xc0 } else { 0xe0 } | (gen_u8(r) & 7), gen_u8(r), gen_u8(r), gen_u8(r)];
+    if !first {
+        v.push(gen_u8(r));
+    }
+    let n = r.below(16) as usize;
+    v.extend(r.bytes(n));
+    v
+}
+fn b_iphc(r: &mut Rng) -> Vec<u8> {
+    let mut v = vec![0x60 | (gen_u8(r) & 0x1f), gen_u8(r)];
+    let n = r.below(44) as usize;
+    v.extend(r.bytes(n));
+    v
+}
+fn b_nhcext(r: &mut Rng) -> Vec<u8> {
+    let n = r.below(12) as usize;
+    let mut v = vec![0xe0 | (gen_u8(r) & 0x0f), 0];
+    if v[0] & 1 == 0 {
+        v.insert(1, *r.pick(&[6u8, 17, 58, 43, 44, 60, 0]));
+    }
+    let last = v.len() - 1;
+    v[last] = n as u8;
+    v.extend(r.bytes(n));
+    v
+}
+fn b_nhcudp(r: &mut Rng) -> Vec<u8> {
+    let mut v = vec![0xf0 | (gen_u8(r) & 7)];
+    let n = r.below(16) as usize;
+    v.extend(r.bytes(n));
+    v
+}
+fn b_rand(r: &mut Rng) -> Vec<u8> {
+    let n = r.below(48) as usize;
+    r.bytes(n)
+}
+
+const TYPES: &[Ty] = &[
+    Ty { name: "ethernet", probe: p_eth, base: b_eth, fields: &[(0, 6), (6, 12), (12, 14), (14, 15), (16, 18), (23, 24)] },
+    Ty { name: "arp", probe: p_arp, base: b_arp, fields: &[(0, 2), (2, 4), (4, 5), (5, 6), (6, 8)] },
+    Ty { name: "ipv4", probe: p_ipv4, base: b_ipv4, fields: &[(0, 1), (2, 4), (4, 6), (6, 8), (9, 10), (10, 12), (20, 21), (22, 24), (24, 26), (32, 33)] },
+    Ty { name: "ipv6", probe: p_ipv6, base: b_ipv6, fields: &[(0, 1), (4, 6), (6, 7), (40, 41), (42, 44), (44, 46), (52, 53)] },
+    Ty { name: "ipv6ext", probe: p_ipv6ext, base: b_ipv6ext, fields: &[(0, 1), (1, 2)] },
+    Ty { name: "ipv6frag", probe: p_ipv6frag, base: b_ipv6frag, fields: &[(0, 2), (2, 6)] },
+    Ty { name: "ipv6hbh", probe: p_ipv6hbh, base: b_ipv6hbh, fields: &[(0, 1), (1, 2), (2, 3), (3, 4)] },
+    Ty { name: "ipv6option", probe: p_ipv6opt, base: b_ipv6hbh, fields: &[(0, 1), (1, 2)] },
+    Ty { name: "ipv6routing", probe: p_ipv6routing, base: b_ipv6routing, fields: &[(0, 1), (1, 2), (2, 3), (3, 4)] },
+    Ty { name: "icmpv4", probe: p_icmpv4, base: b_icmpv4, fields: &[(0, 1), (1, 2), (2, 4), (4, 8), (8, 9), (10, 12)] },
+    Ty { name: "icmpv6", probe: p_icmpv6, base: b_icmpv6, fields: &[(0, 1), (1, 2), (2, 4), (4, 8), (6, 8), (8, 9), (9, 10), (24, 25), (25, 26), (26, 28), (28, 30)] },
+    Ty { name: "mld-record", probe: p_mldrecord, base: b_mldrecord, fields: &[(0, 1), (1, 2), (2, 4)] },
+    Ty { name: "ndiscoption", probe: p_ndiscopt, base: b_ndiscopt, fields: &[(0, 1), (1, 2), (2, 3)] },
+    Ty { name: "igmp", probe: p_igmp, base: b_igmp, fields: &[(0, 1), (1, 2), (2, 4), (4, 8)] },
+    Ty { name: "udp", probe: p_udp, base: b_udp, fields: &[(0, 2), (2, 4), (4, 6), (6, 8)] },
+    Ty { name: "tcp", probe: p_tcp, base: b_tcp, fields: &[(0, 2), (2, 4), (12, 13), (13, 14), (20, 21), (21, 22), (22, 23), (23, 24), (24, 25), (25, 26)] },
+    Ty { name: "dhcpv4", probe: p_dhcp, base: b_dhcp, fields: &[(0, 1), (1, 2), (2, 3), (236, 240), (240, 241), (241, 242), (243, 244), (244, 245), (246, 247)] },
+    Ty { name: "dns", probe: p_dns, base: b_dns, fields: &[(2, 4), (4, 6), (6, 8), (12, 13), (16, 17), (24, 25), (28, 29), (33, 34), (34, 35), (45, 46), (46, 47)] },
+    Ty { name: "ieee802154", probe: p_154, base: b_154, fields: &[(0, 1), (1, 2), (2, 3), (3, 5)] },
+    Ty { name: "sixlowpan-dispatch", probe: p_sixlowpan, base: b_rand, fields: &[(0, 1)] },
+    Ty { name: "sixlowpan-frag", probe: p_sixfrag, base: b_sixfrag, fields: &[(0, 1), (0, 2), (2, 4), (4, 5)] },
+    Ty { name: "sixlowpan-iphc", probe: p_iphc, base: b_iphc, fields: &[(0, 1), (1, 2), (2, 3)] },
+    Ty { name: "sixlowpan-nhc-ext", probe: p_nhcext, base: b_nhcext, fields: &[(0, 1), (1, 2), (2, 3)] },
+    Ty { name: "sixlowpan-udpnhc", probe: p_nhcudp, base: b_nhcudp, fields: &[(0, 1), (1, 2), (1, 3)] },
+];
+
+/// type-specific structured mutations on top of `mutations`
+fn special(r: &mut Rng, name: &str, base: &[u8]) -> Vec<Vec<u8>> {
+    let mut out = vec![];
+    match name {
+        "dns" => {
+            // compression pointers: self reference, forward, mutual, to the header; odd label lengths
+            for (off, hi, lo) in [(12usize, 0xc0u8, 12u8), (12, 0xc0, 13), (12, 0xc0, 0xff), (12, 0xff, 0xff), (12, 0xc0, 0), (13, 0xc0, 12), (12, 0x3f, 0), (12, 0x40, 0), (12, 0x80, 0)] {
+                let mut b = base.to_vec();
+                if b.len() > off + 1 {
+                    b[off] = hi;
+                    b[off + 1] = lo;
+                    out.push(b);
+                }
+            }
+            let mut b = base[..12.min(base.len())].to_vec();
+            b.extend_from_slice(&[0xc0, 14, 0xc0, 12, 0, 1, 0, 1]);
+            out.push(b);
+            for _ in 0..6 {
+                let mut b = base.to_vec();
+                for _ in 0..3 {
+                    if b.len() > 12 {
+                        let i = r.range(12, b.len() as i64 - 1) as usize;
+                        b[i] = *r.pick(&[0xc0u8, 0xc1, 0xff, 0x3f, 0x40, 0, 1]);
+                    }
+                }
+                out.push(b);
+            }
+        }
+        "dhcpv4" | "tcp" | "ipv6hbh" | "ipv6option" | "ndiscoption" | "icmpv6" | "ipv6ext" | "ipv6routing" => {
+            // option / length octets: 0, 1, 2, 255, exactly to the end, one beyond
+            let start = match name {
+                "dhcpv4" => 240,
+                "tcp" => 20,
+                "icmpv6" => 8,
+                _ => 0,
+            };
+            if base.len() > start {
+                for _ in 0..24 {
+                    let mut b = base.to_vec();
+                    let i = r.range(start as i64, b.len() as i64 - 1) as usize;
+                    let rest = (b.len() - i) as i64;
+                    b[i] = *r.pick(&[0i64, 1, 2, 255, rest, rest + 1, rest - 1, rest - 2, rest / 8, rest / 8 + 1]) as u8;
+                    out.push(b);
+                }
+            }
+        }
+        "ieee802154" => {
+            for _ in 0..32 {
+                let mut b = base.to_vec();
+                if b.len() >= 2 {
+                    b[0] = gen_u8(r);
+                    b[1] = gen_u8(r);
+                    if r.chance(1, 2) {
+                        b.truncate(r.range(2, b.len() as i64) as usize);
+                    }
+                    out.push(b);
+                }
+            }
+        }
+        "sixlowpan-iphc" | "sixlowpan-nhc-ext" | "sixlowpan-udpnhc" | "sixlowpan-frag" => {
+            for _ in 0..32 {
+                let mut b = base.to_vec();
+                if b.len() >= 2 {
+                    b[0] = (b[0] & 0xe0) | (gen_u8(r) & 0x1f);
+                    b[1] = gen_u8(r);
+                    b.truncate(r.range(1, b.len() as i64) as usize);
+                    out.push(b);
+                }
+            }
+        }
+        _ => {}
+    }
+    out
+}
+
+fn inputs(r: &mut Rng, t: &Ty, tier: &str) -> Vec<Vec<u8>> {
+    let base = (t.base)(r);
+    let mut v = mutations(r, &base, t.fields, tier);
+    v.extend(special(r, t.name, &base));
+    v
+}
+
+// ---------------------------------------------------------------- driver
+struct Watch {
+    cur: Mutex<(String, Vec<u8>)>,
+    tick: AtomicU64,
+}
+
+fn start_watchdog(w: Arc<Watch>) {
+    std::thread::spawn(move || {
+        let mut last = (0u64, std::time::Instant::now());
+        loop {
+            std::thread::sleep(std::time::Duration::from_millis(250));
+            let t = w.tick.load(Ordering::Relaxed);
+            if t != last.0 {
+                last = (t, std::time::Instant::now());
+            } else if t % 2 == 1 && last.1.elapsed().as_secs() >= 5 {
+                // odd tick = inside a probe that has not finished for 5 s
+                let (name, bytes) = w.cur.lock().unwrap().clone();
+                let so = std::io::stdout();
+                let mut o = so.lock();
+                writeln!(o, "FAILCASE").unwrap();
+                writeln!(o, "case w-nonterm fmt=oracle kind=c07 type={}\nbytes {}\nend", name, hex(&bytes)).unwrap();
+                writeln!(o, "FAIL {}-nonterminating :: a probe of {} did not return within 5 s on {}", name, name, hex(&bytes)).unwrap();
+                writeln!(o, "STATS {{\"cases\":0,\"nonterminating\":1}}").unwrap();
+                o.flush().unwrap();
+                std::process::exit(3);
+            }
+        }
+    });
+}
+
+fn run_one(t: &Ty, b: &[u8], w: &Watch) -> P {
+    {
+        let mut c = w.cur.lock().unwrap();
+        c.0 = t.name.to_string();
+        c.1 = b.to_vec();
+    }
+    w.tick.fetch_add(1, Ordering::Relaxed);
+    let mut p = P::new();
+    (t.probe)(b, &mut p);
+    w.tick.fetch_add(1, Ordering::Relaxed);
+    p
+}
+
+pub fn run(seed: u64, n: usize, tier: &str, out: &mut dyn Write) {
+    let w = Arc::new(Watch { cur: Mutex::new((String::new(), vec![])), tick: AtomicU64::new(0) });
+    start_watchdog(w.clone());
+    let mut rng = Rng::new(seed ^ 0xC07);
+    let mut per_class: BTreeMap<String, u64> = BTreeMap::new();
+    let mut per_type: BTreeMap<String, u64> = BTreeMap::new();
+    let mut fail_lines: Vec<String> = vec![];
+    let (mut inputs_n, mut calls, mut chk_ok, mut parse_ok, mut panics) = (0u64, 0u64, 0u64, 0u64, 0u64);
+    let mut buf: Vec<u8> = vec![];
+    for i in 0..n {
+        let t = &TYPES[i % TYPES.len()];
+        *per_type.entry(t.name.into()).or_default() += 1;
+        for b in inputs(&mut rng, t, tier) {
+            inputs_n += 1;
+            let p = run_one(t, &b, &w);
+            calls += p.calls;
+            chk_ok += p.checked_ok as u64;
+            parse_ok += p.parse_ok as u64;
+            for (kind, what) in &p.panics {
+                panics += 1;
+                let class = format!("{}-{}", t.name, kind);
+                let k = per_class.entry(class.clone()).or_default();
+                *k += 1;
+                if *k > 3 || fail_lines.len() >= 60 {
+                    continue;
+                }
+                writeln!(buf, "FAILCASE").unwrap();
+                Case { id: format!("o{}-{}", seed, i), cfg: vec![("fmt".into(), "oracle".into()), ("kind".into(), "c07".into()), ("type".into(), t.name.into())], ops: vec![format!("bytes {}", hex(&b))] }.write(&mut buf);
+                fail_lines.push(format!("{} :: {} panicked on {} ({} octets)", class, what, hex(&b), b.len()));
+            }
+        }
+    }
+    out.write_all(&buf).unwrap();
+    for l in &fail_lines {
+        writeln!(out, "FAIL {}", l).unwrap();
+    }
+    let pt: Vec<String> = per_type.iter().map(|(k, v)| format!("{}:{}", jstr(&format!("type_{}", k)), v)).collect();
+    let pc: Vec<String> = per_class.iter().map(|(k, v)| format!("{}:{}", jstr(&format!("fail_{}", k)), v)).collect();
+    let mut all = vec![format!("\"cases\":{}", n), format!("\"types\":{}", TYPES.len()), format!("\"inputs\":{}", inputs_n), format!("\"calls\":{}", calls), format!("\"new_checked_ok\":{}", chk_ok), format!("\"parse_ok\":{}", parse_ok), format!("\"panics\":{}", panics)];
+    all.extend(pt);
+    all.extend(pc);
+    writeln!(out, "STATS {{{}}}", all.join(",")).unwrap();
+}
+
+fn case_fails(c: &Case) -> Vec<(String, String)> {
+    let w = Arc::new(Watch { cur: Mutex::new((String::new(), vec![])), tick: AtomicU64::new(0) });
+    start_watchdog(w.clone());
+    let ty = c.get("type").unwrap_or("?");
+    let mut out = vec![];
+    if let Some(t) = TYPES.iter().find(|t| t.name == ty) {
+        for op in &c.ops {
+            let tk: Vec<&str> = op.split_whitespace().collect();
+            if tk.len() >= 2 && tk[0] == "bytes" {
+                let b = unhex(tk[1]);
+                let p = run_one(t, &b, &w);
+                for (kind, what) in p.panics {
+                    out.push((format!("{}-{}", t.name, kind), format!("{} panicked on {}", what, hex(&b))));
+                }
+            }
+        }
+    } else {
+        out.push(("unknown-type".into(), ty.to_string()));
+    }
+    out
+}
+
+pub fn replay(c: &Case, out: &mut dyn Write) {
+    for (class, d) in case_fails(c) {
+        writeln!(out, "FAIL {} :: {}", class, d).unwrap();
+    }
+}
+
+/// stream `wire-oracle`: one line per op, `ok` / `FAIL <classes>`
 pub fn run_case(c: &Case, out: &mut dyn Write) {
-    for _ in &c.ops {
-        writeln!(out, "ok").unwrap();
+    for op in &c.ops {
+        let one = Case { id: c.id.clone(), cfg: c.cfg.clone(), ops: vec![op.clone()] };
+        let fl = case_fails(&one);
+        if fl.is_empty() {
+            writeln!(out, "ok").unwrap();
+        } else {
+            let mut cl: Vec<String> = fl.into_iter().map(|x| x.0).collect();
+            cl.sort();
+            cl.dedup();
+            writeln!(out, "FAIL {}", cl.join(" ")).unwrap();
+        }
+    }
+}
+
+/// cases of stream `wire-oracle` (kind c07): generated inputs as replayable `bytes` ops
+pub fn gen_cases(seed: u64, n: usize, tier: &str, out: &mut dyn Write) {
+    let mut rng = Rng::new(seed ^ 0xC07);
+    for i in 0..n {
+        let t = &TYPES[i % TYPES.len()];
+        let ins = inputs(&mut rng, t, tier);
+        let step = (ins.len() / 12).max(1);
+        let ops: Vec<String> = ins.iter().step_by(step).map(|b| format!("bytes {}", hex(b))).collect();
+        Case { id: format!("g{}-{}", seed, i), cfg: vec![("fmt".into(), "oracle".into()), ("kind".into(), "c07".into()), ("type".into(), t.name.into())], ops }.write(out);
     }
 }
